@@ -160,7 +160,8 @@ class Encoder:
             return {"ev": "Init", "st": self.st(ev["st"]), "seed": int(ev.get("seed", -1))}
         if name == "Restart":
             frac = [[pn, fr] for pn, fr in ev.get("frac", []) if fr is not None and all(q is not None for q in fr)]
-            return {"ev": "Restart", "st": self.st(ev["st"]), "frac": frac}
+            return {"ev": "Restart", "st": self.st(ev["st"]), "frac": frac, "rec": self.rec(ev.get("rec"), n),
+                    "rows_on_disk": [int(x) for x in ev.get("rows_on_disk", [])], "clean": bool(ev.get("clean", True))}
         if name == "Finish":
             return {"ev": "Finish", "st": self.st(ev["st"]), "rec": self.rec(ev["rec"], n)}
         if name == "Pick":
